@@ -136,8 +136,8 @@ def r19_2_callers(ctx):
     ctx.analysed(inv.fq)
     calls = q.calls_named(inv.node, "type_spec_is_assignable_to", into_nested=False)
     c = q.one(calls, "invoke: assignability check")
-    ok = [u(a) for a in c.args] == ["arg.type_spec()", "arg_type"]
-    raises = [r for r in q.raises_of(inv.node) if ("type_spec_is_assignable_to(arg.type_spec(), arg_type)", False) in q.nguards(r)]
+    ok = [q.rtext(inv.node, a) for a in c.args] == ["arg.type_spec()", "self.expected_arg_types[i]"] or (len(c.args) == 2 and q.rtext(inv.node, c.args[0]).endswith(".type_spec()") and "expected_arg_types" in q.rtext(inv.node, c.args[1]))
+    raises = [r for r in q.raises_of(inv.node) if (q.rtext(inv.node, c), False) in q.rguards(inv.node, r)]
     ret = q.returns_of(inv.node)
     ctx.check(ok and len(raises) == 1 and all(raises[0].lineno < r.lineno for r in ret), "R19.2", "invoke:check-direction-and-order", f"invoke must refuse unless type_spec_is_assignable_to(arg.type_spec(), arg_type); found call {u(c)}", inv.where, fact={"call": u(c)})
     loop = [a for a in q.ancestors(c) if isinstance(a, ast.For)]
@@ -147,7 +147,7 @@ def r19_2_callers(ctx):
     calls = q.calls_named(mc.node, "type_spec_is_assignable_to", into_nested=False)
     ctx.check(len(calls) >= 2 and all(q.rtext(mc.node, x.args[0]) in ("args[idx].type_spec()", "abi.type_spec_from_algosdk(args[idx][TxnField.type_enum].name)") and u(x.args[1]) == "method_arg_ts" for x in calls), "R19.2", "MethodCall:check-direction", f"every ABI / transaction argument path of MethodCall must test type_spec_is_assignable_to(<argument's type>, <expected type>); found {[u(x) for x in calls]}", mc.where, fact={"calls": [u(x) for x in calls]})
     for x in calls:
-        rs = [r for r in q.raises_of(mc.node) if (u(x), False) in q.nguards(r)]
+        rs = [r for r in q.raises_of(mc.node) if (q.rtext(mc.node, x), False) in q.rguards(mc.node, r)]
         ctx.check(len(rs) == 1 and q.raise_type(rs[0]) in ("TealTypeError", "TealInputError"), "R19.2", f"MethodCall:refuses[{u(x.args[0])}]", "a failed assignability test must raise a PyTeal error", f"{mc.module.rel}:{x.lineno}", fact={})
         # the test itself must be reached for every argument of its kind: apart from the kind dispatch (isinstance / membership in the
         # transaction / reference spec lists) and earlier refusals, no further condition may stand in front of it
@@ -159,7 +159,7 @@ def r19_2_callers(ctx):
         # the relation must be the whole condition of the refusing `if` (not and-ed / or-ed with something that can skip it)
         whole = own_test is not None and u(own_test) == f"not {u(x)}"
         ctx.check(whole, "R19.2", f"MethodCall:unconditional[{u(x.args[0])}]", f"the refusal must depend on the relation alone; the condition is `{u(own_test) if own_test is not None else None}`", f"{mc.module.rel}:{x.lineno}", fact={})
-        branch = [g for g in q.nguards(x, ("branch",)) if not (g[0].startswith("isinstance(arg, ") or g[0].startswith("method_arg_ts in abi."))]
+        branch = [g for g in q.rguards(mc.node, x, ("branch",)) if not (g[0].startswith("isinstance(args[idx], ") or g[0].startswith("method_arg_ts in abi."))]
         ctx.check(not branch, "R19.2", f"MethodCall:no-bypass[{u(x.args[0])}]", f"the assignability test is only reached under {branch}", f"{mc.module.rel}:{x.lineno}", fact={"guards": q.nguards(x, ('branch',))})
     ctx.require_min("R19.2", 5)
 
